@@ -276,5 +276,16 @@ theorem counterBits_ok :
       ∧ (∀ b, arrayIndexBits? = some b → 63 ≤ b) := by
   refine ⟨?_, ?_, ?_⟩ <;> intro b h <;> cases h <;> decide
 
+/-! ### round 6: what a built request shares with its entry -/
+
+/-- `(*ammo.Ammo).BuildRequest` and `(*ammo.RawAmmo).BuildRequest` (with everything they call inside the module): the
+request's `*url.URL` and its header map are objects made during the build (`http.NewRequest` / `http.ReadRequest` and
+nothing that assigns `req.URL` / `req.Header` an object that outlives the build) — the `UrlOrigin.fresh` system of
+`Pandora.Model.C07Build`, for which `C07_build_pure` holds (an entry that hands out its cached `*url.URL`, seeded change
+C07-r6-1, regenerates `alias`: `C07_build_alias_counterexample`) -/
+theorem buildOrigins_fresh :
+    ammoBuildUrlOrigin = .fresh ∧ ammoBuildHdrOrigin = .fresh ∧ rawAmmoBuildUrlOrigin = .fresh ∧ rawAmmoBuildHdrOrigin = .fresh :=
+  ⟨rfl, rfl, rfl, rfl⟩
+
 
 end Pandora.Bridge.C07
